@@ -58,26 +58,51 @@ def showErr : Err → String
 def mkExt (rnd : Rat → Rat) : Ext :=
   { rnd := rnd, sqrt := sqrtQ, polar := id, topEig := topEigQ, allclose := allcloseQ Gen.rtol Gen.atol }
 
-def fmtN1 : NFmt := ⟨Gen.n1QuatThr, Gen.floatEps⟩
-def fmtN2 : NFmt := ⟨Gen.n2QuatThr, Gen.floatEps⟩
+def fmtN1 : NFmt := ⟨Gen.n1QuatThr, Gen.floatEps, Gen.xformCodes⟩
+def fmtN2 : NFmt := ⟨Gen.n2QuatThr, Gen.floatEps, Gen.xformCodes⟩
 
-/-- `<code>:<A|->`  -/
-def parseCodedAff? (s : String) : Option (Nat × Option (Aff Rat)) :=
-  match s.splitOn ":" with
-  | [c, a] => match c.toNat? with
+/-- `self._field_recoders['sform_code'][code]` (nifti1.py set_sform / set_qform): an integer must be a
+    code of the regenerated table, a string one of its aliases; anything else is a `KeyError` -/
+def resolveCode? (tok : String) : Option Nat :=
+  match tok.toNat? with
+  | some n => if Gen.xformCodes.contains n then some n else none
+  | none => (Gen.xformTable.find? (fun e => e.2.contains tok)).map (·.1)
+
+/-- code token `<code-or-alias>` or `<code-or-alias>!<raw>` (the field overwritten afterwards with the
+    raw integer, `hdr['sform_code'] = raw`).  `none` = malformed, `some none` = KeyError. -/
+def parseCodeTok? (s : String) : Option (Option (Nat × Option Nat)) :=
+  match s.splitOn "!" with
+  | [c] => some ((resolveCode? c).map (fun n => (n, none)))
+  | [c, r] => match r.toNat? with
     | none => none
-    | some c => if a = "-" then some (c, none) else (parseAff? a).map (fun a => (c, some a))
+    | some r => some ((resolveCode? c).map (fun n => (n, some r)))
+  | _ => none
+
+/-- `<codetok>:<A|->`; `some none` = KeyError from the code lookup -/
+def parseCodedAff? (s : String) : Option (Option ((Nat × Option Nat) × Option (Aff Rat))) :=
+  match s.splitOn ":" with
+  | [c, a] => match parseCodeTok? c with
+    | none => none
+    | some none => some none
+    | some (some c) => if a = "-" then some (some (c, none)) else (parseAff? a).map (fun a => some (c, some a))
   | _ => none
 
 /-- NIfTI header spec: `-` or `q=<code>:<A|->;s=<code>:<A|->` (set_qform then set_sform on a fresh header) -/
-def parseNHdr? (E : Ext) (shape : List Nat) (s : String) : Option (Option NHdr) :=
-  if s = "-" then some none else
+inductive HdrSpec where
+  | noHeader
+  | keyError
+  | hdr (h : NHdr)
+
+def parseNHdr? (E : Ext) (shape : List Nat) (s : String) : Option HdrSpec :=
+  if s = "-" then some .noHeader else
   match s.splitOn ";" with
   | [q, sf] =>
     if q.startsWith "q=" && sf.startsWith "s=" then
       match parseCodedAff? (q.drop 2).toString, parseCodedAff? (sf.drop 2).toString with
-      | some (qc, qa), some (sc, sa) =>
-        some (some (((defaultNHdr shape).setQform E qa qc).setSform E sa sc))
+      | some (some ((qc, qraw), qa)), some (some ((sc, sraw), sa)) =>
+        let h := ((defaultNHdr shape).setQform E qa qc).setSform E sa sc
+        some (.hdr { h with qformCode := qraw.getD h.qformCode, sformCode := sraw.getD h.sformCode })
+      | some _, some _ => some .keyError
       | _, _ => none
     else none
   | _ => none
@@ -112,7 +137,9 @@ def parseMode? (s : String) : Option MatMode :=
 def rtNifti (E : Ext) (f : NFmt) (shape : List Nat) (a : Aff Rat) (hs : String) : String :=
   match parseNHdr? E shape hs with
   | none => "bad-op"
-  | some hdr =>
+  | some .keyError => "ERR:KeyError"
+  | some spec =>
+    let hdr : Option NHdr := match spec with | .hdr h => some h | _ => none
     match niftiRoundtrip E f shape a hdr with
     | .error e => showErr e
     | .ok o => "aff=" ++ showAff o.affine ++ " s=" ++ showCoded o.sform ++ " q=" ++ showCoded o.qform
@@ -147,8 +174,9 @@ def handle : List String → String
       | _, _, _ => "bad-op"
   | ["hq", cls, a, code] =>
       -- header level: `hdr.set_qform(A, code); hdr.get_qform(coded=True)`
-      match parseAff? a, code.toNat? with
-      | some a, some code =>
+      match parseAff? a, parseCodeTok? code with
+      | some _, some none => "ERR:KeyError"
+      | some a, some (some (code, _)) =>
         let go (E : Ext) (f : NFmt) : String :=
           match ((defaultNHdr [1, 1, 1]).setQform E (some a) code).qformCoded E f with
           | .error e => showErr e
@@ -159,8 +187,9 @@ def handle : List String → String
       | _, _ => "bad-op"
   | ["hs", cls, a, code] =>
       -- header level: `hdr.set_sform(A, code); hdr.get_sform(coded=True)`
-      match parseAff? a, code.toNat? with
-      | some a, some code =>
+      match parseAff? a, parseCodeTok? code with
+      | some _, some none => "ERR:KeyError"
+      | some a, some (some (code, _)) =>
         let go (E : Ext) : String := "s=" ++ showCoded ((defaultNHdr [1, 1, 1]).setSform E (some a) code).sformCoded
         if cls = "N1" || cls = "N1P" then go (mkExt roundF32)
         else if cls = "N2" then go (mkExt id)
